@@ -269,11 +269,11 @@ def r14_4b(ctx, which, rule="R14.4"):
     ctx.floor(rule, "do_numeric-digit-paths/" + which, n, 2)
 
 
-def semicolon_rule(ctx, rule):
+def semicolon_rule(ctx, rule, which="html"):
     """finish_named (HTML): a matched name whose last character is ';' is always a reference; the legacy exceptions (inside an
     attribute value, followed by '=' or an alphanumeric) leave the characters alone only after that test failed; the last matched
     character is name_buf[name_len - 1] and the character after the match is the first of name_buf[name_len..]"""
-    T = ctx.tables("html")
+    T = ctx.tables(which)
     cells = mc.to_json({"finish_named": T["charref"]["finish_named"]})["finish_named"]
     LAST = "self.name_buf()[(self.name_len - 1)..]"
     NEXT = "self.name_buf()[self.name_len..]"
@@ -303,7 +303,9 @@ def semicolon_rule(ctx, rule):
                 bad = "the characters of a matched name are left alone (unconsume_name) %s: e.g. &amp;= inside an attribute value stays undecoded" % (
                     "on a path where the name ends in ';'" if semi else "without first testing that the match does not end in ';'")
                 continue
-            in_attr = gval(g, "self.is_consumed_in_attribute")
+            in_attr = gval(g, "self.is_consumed_in_attribute") if which == "html" else gval(g, "self.addnl_allowed matches Some(_)")
+            if in_attr is None and which != "html":
+                in_attr = True if g.get("self.addnl_allowed matches None") is False else None
             nxt = [(k, v) for k, v in g.items() if v and (re.search(r" matches (Some\()?'='\)?(#\d+)?$", k) or k.split("#")[0].endswith(".is_ascii_alphanumeric()"))]
             if in_attr is not True:
                 bad = "the legacy exception is applied outside an attribute value"
@@ -314,8 +316,8 @@ def semicolon_rule(ctx, rule):
                     bad = "the character after the match is not taken from name_buf[name_len..]: " + k[:120]
     if bad is None and nsemi < 2:
         bad = "the decision between 'reference' and 'leave the characters' no longer tests the last matched character against ';': it has to be re-reviewed"
-    ctx.ob(rule, "named-reference-semicolon-before-legacy-exception", bad is None and n >= 6, bad or "%d matched paths: ';' decides first; '=' / alphanumeric exceptions only in attributes and only after it; both characters come from name_buf around name_len" % n,
-           "html5ever tokenizer char_ref finish_named")
+    ctx.ob(rule, "named-reference-semicolon-before-legacy-exception" + ("" if which == "html" else "/" + which), bad is None and n >= 6, bad or "%d matched paths: ';' decides first; '=' / alphanumeric exceptions only in attributes and only after it; both characters come from name_buf around name_len" % n,
+           "%s tokenizer char_ref finish_named" % which)
 
 
 def in_attribute_flag_rule(ctx, rule):
@@ -368,6 +370,11 @@ def charref_start_states_rule(ctx, rule):
 
 
 def run(ctx):
+    ctx.guard("R14.6", "semicolon/xml", lambda: semicolon_rule(ctx, "R14.6", "xml"))
+    ctx.rule("R14.11", "a digit-less '&#x' / '&#X' is handed back with the marker character as it was read")
+    from . import tokrules as _tr11
+    for _w in ("html", "xml"):
+        ctx.guard("R14.11", "hex-marker/" + _w, lambda _w=_w: _tr11.hex_marker_conserved(ctx, "R14.11", _w))
     ctx.rule("R14.10", "end of input inside a character reference resolves every state as the standard does (a name being matched is looked up, not handed back)")
     from . import tokrules as _tr10
     for _w in ("html", "xml"):
